@@ -66,6 +66,9 @@ func vC08MakeCanary() vC08Canary {
 	c.touchFile = filepath.Join(c.dir, "created-by-script")
 	if !vSymbolic() {
 		os.WriteFile(c.secretFile, []byte("(def leaked \""+c.secret+"\")\n\""+c.secret+"\"\n"), 0644)
+		// a host environment variable holding the secret: a script that gets
+		// "$VERIF_C08_SECRET" expanded has read the environment
+		os.Setenv("VERIF_C08_SECRET", c.secret)
 	}
 	return c
 }
@@ -92,7 +95,12 @@ func (c vC08Canary) effect(env *Zlisp, res Sexp, err error) bool {
 				return true
 			case strings.Contains(e, "\""+c.touchFile+"\"") && !strings.HasPrefix(e, "os.Stat") && !strings.HasPrefix(e, "os.Open("):
 				return true
-			case strings.Contains(e, "VERIF_C08_ENV") && (strings.Contains(e, "env") || strings.Contains(e, "Env")):
+			case strings.HasPrefix(e, "os.ExpandEnv") || strings.HasPrefix(e, "os.Expand("):
+				// expansion reads the environment only for $NAME / ${NAME}
+				if strings.Contains(e, "$VERIF_C08_") || strings.Contains(e, "${VERIF_C08_") {
+					return true
+				}
+			case strings.Contains(e, "VERIF_C08_") && (strings.Contains(e, "env") || strings.Contains(e, "Env")):
 				return true
 			case strings.HasPrefix(e, "os.Exit"):
 				return true
@@ -132,12 +140,14 @@ func vC08Arg(env *Zlisp, k int, c vC08Canary) Sexp {
 		return &SexpStr{S: "touch"}
 	case 5:
 		return &SexpInt{Val: 1}
+	case 6:
+		return &SexpStr{S: "$VERIF_C08_SECRET ${VERIF_C08_SECRET}"}
 	default:
 		return vL(env.MakeSymbol("quote"), env.MakeSymbol("x"))
 	}
 }
 
-const vC08NArgs = 7
+const vC08NArgs = 8
 
 func vC08Run(env *Zlisp, label string) {
 	vFormatOpaque(true)
